@@ -103,8 +103,11 @@ def run(tier):
         elif sc["mode"] == "diff" and sc["how"] == "badopt":
             args += ["-@--no-such-differ-option", fa, fa]
         elif sc["mode"] == "diff":
-            if idx >= n_plain:
-                env["GIT_TRACE"] = "1"      # a differ that talks on stderr while it succeeds (traces, warnings about its configuration)
+            if idx >= n_plain and sc["status"] in (0, 1):
+                # a differ that talks on stderr while it succeeds (traces, warnings about its configuration).  (With the stub
+                # git in front delta finds no git version and uses diff(1); here it finds the real git and runs git diff --no-index.)
+                env["GIT_TRACE"] = "1"
+                env["PATH"] = f"{pagers}:/usr/bin:/bin"
             if sc["status"] == 0:
                 args += [fa, fc]
             elif sc["status"] == 1:
